@@ -5,6 +5,7 @@ package metrics
 import (
 	"context"
 	"errors"
+	"net"
 	"net/http"
 	"net/http/pprof"
 	"sync"
@@ -26,6 +27,9 @@ type Server struct {
 
 	// done is closed when the serving goroutine has returned.
 	done chan struct{}
+
+	// cancel ends the context every request's context derives from.
+	cancel context.CancelFunc
 
 	// active counts the requests being handled; idle is signalled when it
 	// drops to zero.
@@ -62,10 +66,13 @@ func (s *Server) Stop() stop.Result {
 		// completing. Past the deadline the remaining connections are closed.
 		ctx, cancel := context.WithTimeout(context.Background(), shutdownTimeout)
 		defer cancel()
+		defer s.cancel()
 		err := s.srv.Shutdown(ctx)
 		if errors.Is(err, context.DeadlineExceeded) {
-			// Closing a connection cancels its request; wait for the
-			// handlers to notice.
+			// End the requests (closing a connection does not always cancel
+			// its request: not while a request body is still unread) and
+			// wait for the handlers to notice.
+			s.cancel()
 			err = s.srv.Close()
 			s.mu.Lock()
 			for s.active > 0 {
@@ -103,6 +110,9 @@ func NewServer(addr string) *Server {
 		done: make(chan struct{}),
 	}
 	s.idle = sync.NewCond(&s.mu)
+	baseCtx, cancel := context.WithCancel(context.Background())
+	s.cancel = cancel
+	s.srv.BaseContext = func(net.Listener) context.Context { return baseCtx }
 	s.srv.Handler = s.track(mux)
 
 	go func() {
